@@ -353,12 +353,19 @@ func (e *erasureCodingPartStore) getPartWithHealing(ctx context.Context, tx data
 func (e *erasureCodingPartStore) openPartReaders(ctx context.Context, tx database.Tx, partId partstore.PartId) ([]io.ReadCloser, []bool, error) {
 	readers := make([]io.ReadCloser, e.totalShards)
 	healShards := make([]bool, e.totalShards)
+	notFound := 0
 	for i := 0; i < e.totalShards; i++ {
 		rc, err := e.partStores[i].GetPart(ctx, tx, partId)
 		if err != nil {
 			if errors.Is(err, partstore.ErrPartNotFound) {
 				readers[i] = nil
 				healShards[i] = true
+				notFound++
+				if notFound == e.totalShards {
+					// No shard store knows the part: it does not exist. Healing it
+					// would resurrect a deleted part as header-only shards.
+					return nil, nil, partstore.ErrPartNotFound
+				}
 				continue
 			}
 			closePartReaders(readers)
